@@ -7,7 +7,7 @@
    same lists is NOT a theorem here -- it is what the correspondence check of this property tests
    on the real code generator, variant against variant and against the model. *)
 From Coq Require Import List NArith Bool.
-From HV Require Import Dfir.Model Dfir.POps.
+From HV Require Import Dfir.Model Dfir.ModelRealise Dfir.POps Dfir.PRealise.
 Import ListNotations.
 
 Theorem C22_perturbation_operators :
@@ -33,6 +33,46 @@ Proof.
   destruct i as [|x [|y r]]; cbn [length] in H; try discriminate. reflexivity.
 Qed.
 Print Assumptions C22_identity_insert.
+
+(* (i) the pull and the push realisation agree, for the operators whose write_fn has two
+   materially different is_pull branches (transcribed in Dfir/ModelRealise.v): same state after
+   the tick, same items downstream (fold_keyed: up to order -- hash order is unspecified anyway --
+   and after write_tick_end).  The operators built from one closure handed to Pull::filter/map/..
+   or to push::filter/map/.. (map, filter, filter_map, flat_map, inspect, unique, enumerate,
+   multiset_delta, scan) use the same closure on both sides; their equality is the combinator
+   properties C11/C12. *)
+Theorem C22_pull_push :
+  (forall f acc items, push_run (fold_push_step f) fold_push_fin acc items = fold_pull f acc items) /\
+  (forall vec items,
+     let '(s, out) := push_run persist_push_step persist_push_fin (vec, 0%nat) items in
+     (fst s, out) = persist_pull vec items) /\
+  (forall p init f t items,
+     let '(tp, outp) := fold_keyed_pull p init f t items in
+     let '(tq, outq) := push_run (fold_keyed_push_step init f) fold_keyed_push_fin t items in
+     fold_keyed_end p tp = fold_keyed_end p tq /\ Permutation.Permutation outp outq) /\
+  (forall key items,
+     snd (push_run sort_by_key_push_step (sort_by_key_push_fin key) [] items) = sort_by_key_pull key items /\
+     fst (push_run sort_by_key_push_step (sort_by_key_push_fin key) [] items) = []).
+Proof.
+  split; [exact fold_pull_push|]. split; [exact persist_pull_push|].
+  split; [exact fold_keyed_pull_push | exact sort_by_key_pull_push].
+Qed.
+Print Assumptions C22_pull_push.
+
+(* the realisations are the list-level operator model of Dfir/Model.v *)
+Theorem C22_realisation_is_model :
+  (forall p init f acc items,
+     op_step (op_fold p init f) {| st_ports := [[acc]] |} [items] =
+     ({| st_ports := [[fst (fold_pull f acc items)]] |}, [snd (fold_pull f acc items)])) /\
+  (forall vec items,
+     op_step op_persist {| st_ports := [vec] |} [items] =
+     ({| st_ports := [fst (persist_pull vec items)] |}, [snd (persist_pull vec items)])).
+Proof.
+  split; intros; cbn [op_step op_fold op_persist acc1 absorb nports ao_pers length seq map ao_ins ao_out port nth st_ports].
+  - rewrite fold_fold_ins. reflexivity.
+  - rewrite fold_vec_push. reflexivity.
+Qed.
+Print Assumptions C22_realisation_is_model.
 
 Example C22_example :
   run_op (op_union 2) [[[VN 1; VN 2]; []]; [[VN 3]; []]] = [[[VN 1; VN 2]]; [[VN 3]]].
